@@ -18,7 +18,8 @@ LEVEL_TEXT = ("Theorems (Lean 4, no size bounds; Ccp.Props.C03 over the model Cc
               "list and in no other, a root in none, children come after their parent. For every tree satisfying Forest, with "
               "ancestors t j = the chain parent, grandparent, ... root (shown equal to the transitive closure IsAncestor, strictly "
               "descending, ending at a root): allParents_spec (= the chain reversed; ascending, duplicate free), allChildren_spec "
-              "(j listed iff i is on j's chain; ascending, duplicate free; equals the line range filtered by that condition), geneology_spec "
+              "(j listed iff i is on j's chain; ascending, duplicate free; equals the line range filtered by that condition), allChildren_closure "
+              "(j listed iff it is a child of i or listed for a child of i), allParents_allChildren_dual (converse relations), geneology_spec "
               "(= root-to-line path), lineage_spec (= all_parents ++ [i] ++ all_children, ascending), familyEndpoint_spec (= the maximum of "
               "i :: all_children), siblings_spec (the parent's children of equal indent, ascending; for a root its own children of equal "
               "indent), self_mem_siblings, flags_spec (is_parent iff child list non-empty iff some other line names i as parent; is_child "
